@@ -485,6 +485,26 @@ func checkHistory(c CaseHist, which string) (*vkit.Failure, vkit.Meta) {
 							if strings.Join(lp, "/") != strings.Join(path, "/") {
 								continue // another graph level: the nested run may have finished with this node
 							}
+							if len(path) > 0 && later.Phase == "start" {
+								// inside a graph node: a node entered from START may belong to a new execution of the
+								// enclosing graph node (whose input can contain this very output, e.g. a self loop of the
+								// graph node); the events cannot tell the two apart
+								_, lk := splitTag(later.Node)
+								fromStart := false
+								for _, e := range sp.Edges {
+									if e.From == gkit.Start && e.To == lk {
+										fromStart = true
+									}
+								}
+								for _, br := range sp.Branches {
+									if br.From == gkit.Start && contains(br.Targets, lk) {
+										fromStart = true
+									}
+								}
+								if fromStart {
+									break
+								}
+							}
 							if later.Phase == "start" && later.Node != ev.Node && strings.Contains(later.In, ev.Out) {
 								return &vkit.Failure{Kind: "successor-ran-after-interrupt-after", Sig: "successor-ran-after-interrupt-after",
 									Msg: fmt.Sprintf("node %s (interrupt-after) completed in call %d and %s started afterwards in the same call on input %q", ev.Node, ev.Call, later.Node, vkit.Short(later.In, 120))}
